@@ -95,7 +95,7 @@ fn inspect(acc: &mut Acc, case: &Case, buf: &[u8], sub: &str) {
     // every decorated / degenerate text (a lone quote, quotes only, blanks only, NUL, colon, a
     // multi-byte character alone, 1000 bytes)
     let long = "x".repeat(1000);
-    let sealed_msg = msg.has_attribute(AttributeType::new(0x0008)) || msg.has_attribute(AttributeType::new(0x001C));
+    let sealed_msg = sub.is_empty() && (msg.has_attribute(AttributeType::new(0x0008)) || msg.has_attribute(AttributeType::new(0x001C)));
     for t in if !sealed_msg { vec![] } else { vec!["\"", "\"\"", " \" ", "\t\"\r\n", "\"a", "a\"", " ", "\0", ":", "::", "\u{e9}", "\u{1F600}", "\\", "%", long.as_str()] } {
         cred_list.push(lt(t, "r", "p"));
         cred_list.push(lt("u", t, "p"));
@@ -142,10 +142,11 @@ fn inspect(acc: &mut Acc, case: &Case, buf: &[u8], sub: &str) {
     }
     // formatting into a sink that refuses data after `cap` bytes (a fixed-size log line, a full disk):
     // fmt must hand the error back, never panic
+    if sub.is_empty() {
     probe!(acc, case, &format!("Display/Debug into a bounded sink{sub}"), {
         use std::fmt::Write;
         let full = format!("{msg}").len();
-        for cap in [0usize, 1, 7, 20, 21, 40, full / 2, full.saturating_sub(1), full] {
+        for cap in [0usize, 7, 21, full / 2, full.saturating_sub(1)] {
             let mut w = Bounded { left: cap };
             let _ = write!(w, "{msg}");
             let mut w = Bounded { left: cap };
@@ -158,6 +159,7 @@ fn inspect(acc: &mut Acc, case: &Case, buf: &[u8], sub: &str) {
             }
         }
     });
+    }
     probe!(acc, case, &format!("Display/Debug(RawAttribute){sub}"), {
         for a in msg.iter_attributes() {
             let _ = format!("{a} {a:?}");
@@ -207,6 +209,7 @@ pub fn judge(case: &Case, acc: &mut Acc) {
                 acc.outcome("refused");
             }
             // once more with the bytes at an odd address (in place behind a TCP length prefix)
+            if accepted == Some(true) || buf.len() <= 40 {
             probe!(acc, case, "from_bytes + inspection at an odd address", {
                 let first = real::parse_summary(buf);
                 let _ = real::differs_at_residue(buf, &first, |b| {
@@ -219,6 +222,7 @@ pub fn judge(case: &Case, acc: &mut Acc) {
                     real::parse_summary(b)
                 });
             });
+            }
         }
         "typed" => {
             let k = Kind::from_name(&case.text[0]).unwrap();
@@ -245,6 +249,7 @@ pub fn judge(case: &Case, acc: &mut Acc) {
                     }
                 }
             });
+            if ok == Some(true) || buf.len() < 24 {
             probe!(acc, case, &format!("from_raw::<{}> at odd addresses", k.name()), {
                 let _ = real::differs_at_residue(buf, &true, |b| {
                     let r = RawAttribute::new(AttributeType::new(code), b);
@@ -254,6 +259,7 @@ pub fn judge(case: &Case, acc: &mut Acc) {
                     true
                 });
             });
+            }
             // the same under a TRACE subscriber (log statements only format their arguments then)
             with_sink_subscriber(|| {
                 probe!(acc, case, &format!("from_raw::<{}>+subscriber", k.name()), {
@@ -435,13 +441,21 @@ pub fn run(ctx: &Ctx) -> Report {
         .reduce(Acc::default, |a, b| a.merge(b));
     // (d) typed decoders
     let uni = values::type_universe();
+    // (the values of one type are spread over all threads: ERROR-CODE alone has half a million)
+    let acc_d0 = ALL_KINDS
+        .iter()
+        .flat_map(|k| values::decode_values(*k, ctx.tier).into_iter().map(move |v| (*k, v)))
+        .collect::<Vec<_>>()
+        .into_par_iter()
+        .fold(Acc::default, |mut acc, (k, v)| {
+            judge_w(&Case::new("typed", v).args(&[k.code() as i64]).text(&[k.name()]), &mut acc);
+            acc
+        })
+        .reduce(Acc::default, |a, b| a.merge(b));
     let acc_d = ALL_KINDS
         .par_iter()
         .map(|k| {
             let mut acc = Acc::default();
-            for v in values::decode_values(*k, ctx.tier) {
-                judge_w(&Case::new("typed", v).args(&[k.code() as i64]).text(&[k.name()]), &mut acc);
-            }
             // every type code of the universe x short values
             for t in &uni {
                 for v in [vec![], vec![0u8], vec![0, 1], vec![0, 1, 2, 3], vec![0u8; 8], vec![0xFFu8; 20], vec![0x41u8; 32]] {
@@ -467,7 +481,7 @@ pub fn run(ctx: &Ctx) -> Report {
             acc
         })
         .reduce(Acc::default, |a, b| a.merge(b));
-    let acc = acc_a.merge(acc_b).merge(acc_c).merge(acc_d).merge(acc_e);
+    let acc = acc_a.merge(acc_b).merge(acc_c).merge(acc_d0).merge(acc_d).merge(acc_e);
     Report {
         acc,
         exhaustive: true,
